@@ -20,6 +20,78 @@ import (
 
 func init() {
 	registerReplay("TestC12_DefinitionContext", diffReplay)
+	registerReplay("TestC12_ShadowedBuiltins", diffReplay)
+}
+
+// TestC12_ShadowedBuiltins: a built-in's name is a variable like any other: a
+// block assignment or a parameter of that name shadows it for calls, chains,
+// partials and bare references inside the scope, and not outside it.
+func TestC12_ShadowedBuiltins(t *testing.T) {
+	rec := begin(t, "C12", "rapid: the names of 12 built-ins rebound by a block assignment or a lambda parameter (to lambdas of 0..2 parameters and to non-functions), then used in call position, through ~> with and without further arguments, as a partial application, as a bare value handed to $map, in a nested block that rebinds again, and after the scope has ended (where the built-in is visible again); oracle = reference evaluator (lexical lookup for every name); non-trivial = all; distinct by program text")
+	defer finish(t, rec)
+	doc := val.MustJSON(`{"xs":[3,4],"s":"str"}`)
+	names := []string{"sum", "count", "uppercase", "string", "length", "max", "exists", "not", "type", "boolean", "append", "substring"}
+	rapidRun(t, rec, 8000, 120000, func(rt *rapid.T) {
+		f := rapid.SampledFrom(names).Draw(rt, "builtin")
+		fv := func() *ast.Node { return ast.VarN(f) }
+		arg := func() *ast.Node {
+			return rapid.SampledFrom([]*ast.Node{ast.ArrN(ast.NumN(1), ast.NumN(2)), ast.StrN("ab"), ast.NameN("xs"), ast.NameN("s"), ast.N(ast.Obj, ast.StrN("k"), ast.NumN(1))}).Draw(rt, "arg").Clone()
+		}
+		newVal := func() *ast.Node {
+			switch rapid.IntRange(0, 4).Draw(rt, "bound") {
+			case 0:
+				return ast.LambdaN([]string{"x"}, "", ast.ArrN(ast.StrN("mine"), ast.VarN("x")))
+			case 1:
+				return ast.LambdaN([]string{"v", "w"}, "", ast.ArrN(ast.StrN("two"), ast.VarN("v"), ast.VarN("w")))
+			case 2:
+				return ast.LambdaN(nil, "", ast.StrN("none"))
+			case 3:
+				return ast.VarN(rapid.SampledFrom([]string{"count", "string", "type"}).Draw(rt, "otherBuiltin"))
+			}
+			return ast.NumN(7)
+		}
+		use := func() *ast.Node {
+			switch rapid.IntRange(0, 6).Draw(rt, "use") {
+			case 0:
+				return ast.CallE(fv(), arg())
+			case 1:
+				return ast.N(ast.Chain, arg(), ast.CallE(fv(), ast.NumN(2)))
+			case 2:
+				return ast.N(ast.Chain, arg(), fv())
+			case 3:
+				return ast.CallE(&ast.Node{K: ast.Partial, C: []*ast.Node{fv(), ast.N(ast.Hole)}}, arg())
+			case 4:
+				return ast.CallN("map", ast.ArrN(ast.ArrN(ast.NumN(1)), ast.StrN("q")), fv())
+			case 5:
+				return ast.CallE(fv())
+			}
+			return ast.CallN("type", fv())
+		}
+		var prog *ast.Node
+		switch rapid.IntRange(0, 4).Draw(rt, "scope") {
+		case 0:
+			prog = ast.BlockN(assign(f, newVal()), use())
+		case 1: // as a parameter
+			prog = ast.CallE(ast.LambdaN([]string{f}, "", use()), newVal())
+		case 2: // rebound again in an inner block; the outer binding is back afterwards
+			prog = ast.BlockN(assign(f, newVal()), ast.ArrN(ast.BlockN(assign(f, newVal()), use()), use()))
+		case 3: // the built-in is visible again after the block
+			prog = ast.ArrN(ast.BlockN(assign(f, newVal()), use()), use())
+		default: // inside a callback, once per item
+			prog = ast.CallN("map", ast.ArrN(ast.NumN(1), ast.NumN(2)), ast.LambdaN([]string{"i"}, "", ast.BlockN(assign(f, newVal()), use())))
+		}
+		c := mkDiff(prog, doc, true)
+		p, r, m, skip := diffRun(c)
+		if skip {
+			rec.Class("skipped_" + r.Why)
+			return
+		}
+		rec.Case(c.Text, true, diffSample(c, p))
+		rec.Class("outcome_" + p.Kind + "_" + p.Err)
+		if m != "" && rec.Fail(c, m) {
+			rt.Fatalf("%s\n  expr: %s", m, c.Text)
+		}
+	})
 }
 
 var c12DefDoc = `{"name":"top","n":1,"items":[{"name":"a","n":2,"sub":[{"name":"aa","n":3}]},{"name":"b","n":4,"sub":[{"name":"bb","n":5},{"name":"bc","n":6}]}],"other":{"name":"o","n":7}}`
